@@ -1301,12 +1301,12 @@ class NormalizeSpaceFunction(Function):
     characters inside the string with a single space.
     """
     __slots__ = ['expr']
-    _normalize = re.compile(r'\s{2,}').sub
+    _normalize = re.compile(r'[ \t\r\n]+').sub
     def __init__(self, expr):
         self.expr = expr
     def __call__(self, kind, data, pos, namespaces, variables):
         string = self.expr(kind, data, pos, namespaces, variables)
-        return self._normalize(' ', as_string(string).strip())
+        return self._normalize(' ', as_string(string).strip(' \t\r\n'))
     def __repr__(self):
         return 'normalize-space(%s)' % repr(self.expr)
 
